@@ -237,7 +237,12 @@ package scheduler
 //   main loop
 //@   loop 1 invariant [C19,C03,C06,C05] A1-pending-is-ready-waiting-ongoing: pending == listlen(ready) + waiting + ongoing
 //@   loop 1 invariant [C19,C03,C06] A2-ongoing-bounded: 0 <= ongoing && ongoing <= s.concurrency
-//@   loop 1 invariant [C19,C05] A3-counters-match-channel-events: ongoing == $OUT && pending == nEnq - nRes && nRes <= nDisp && 0 <= nRes && 0 <= nEnq
+//   (A3 also serves C07/C08: `pending == 0` at the exit test means every job
+//   received from Enqueue has been reported by a worker - no job is dropped or
+//   counted twice, so in ContinueOnError mode every job that is not downstream
+//   of a failure has been run before the loop may finish; DISP: a job is
+//   finished only through a worker's report.)
+//@   loop 1 invariant [C19,C05,C07,C08] A3-counters-match-channel-events: ongoing == $OUT && pending == nEnq - nRes && nRes <= nDisp && 0 <= nRes && 0 <= nEnq
 //@   loop 1 invariant [C19] A4-waiting-bounded: waiting <= nEnqDeps && nEnqDeps <= nEnq && listlen(ready) >= 0
 //@   loop 1 invariant [C05,C06] K2-the-loop-does-not-wait-once-nothing-is-pending-and-no-enqueue-can-come: !(pending == 0 && closedSeen)
 //@   loop 1 invariant [C05] K1-enqueue-arm: (enqueuec == nil) == closedSeen && implies(enqueuec != nil, enqueuec == s.enqueuec)
@@ -253,7 +258,7 @@ package scheduler
 //@   loop 1 invariant [C01,C07,C05] D5-entries-of-one-consumer-have-distinct-slots: $D5
 //@   loop 1 invariant [C01,C07,C05] D6-every-subscription-has-its-entry: $D6
 //@   loop 1 invariant [C19,C05] W-waiting-counts-jobs-with-open-subscriptions: $WDEF && waiting == card(W)
-//@   loop 1 invariant [C01,C12,C02,C10] dispatched-and-finished-jobs: $DISP
+//@   loop 1 invariant [C01,C12,C02,C10,C08] dispatched-and-finished-jobs: $DISP
 //@   loop 1 invariant [C08,C01] F1-failed-dependency-invalidates: $F1
 //@   loop 1 invariant [C08] F2-invalid-has-a-failed-dependency: $F2
 //@   loop 1 invariant [C08,C01] F3-finished-invalid-job-carries-an-error: $F3
